@@ -1,2 +1,3 @@
 //! Shared generators (proptest strategies).
+pub mod password;
 pub mod text;
